@@ -250,13 +250,25 @@ def qual(n):
     cur = n
     while cur is not None and not hasattr(cur, "_qual"):
         cur = parent(cur)
-    mod = getattr(n, "_mod", None)
+    mod = _mod_of(n)
     rel = mod.rel if mod else "?"
     return f"{rel}::{cur._qual}" if cur is not None else f"{rel}::<module>"
 
 
+def _mod_of(n):
+    """the module of a node; nodes created by an analysis copy (helper expansion, respelling) take it from their ancestors"""
+    cur, k = n, 0
+    while cur is not None and k < 200:
+        m = getattr(cur, "_mod", None)
+        if m is not None:
+            return m
+        cur = getattr(cur, "_parent", None)
+        k += 1
+    return None
+
+
 def where(n):
-    mod = getattr(n, "_mod", None)
+    mod = _mod_of(n)
     return f"{mod.rel if mod else '?'}:{getattr(n, 'lineno', 0)}"
 
 
